@@ -490,14 +490,17 @@ Record tst := { t_started : bool; t_break : bool; dp : dpc; tp : tpc }.
 
 Inductive tlabel := TD_read | TD_enter | TD_wake | TT_clear | TT_break | TT_join.
 
-Definition tstep (s : tst) (l : tlabel) : option tst :=
+(* [sticky] = the repaired stop() (patches/C10-teardown-sticky-wakeup.diff): besides the break it
+   activates the dummy event, and an activated event survives the entry into event_base_loop *)
+Definition tstep (sticky : bool) (s : tst) (l : tlabel) : option tst :=
   match l with
   | TD_read => match dp s with
                | DRead => Some {| t_started := t_started s; t_break := t_break s;
                                   dp := if t_started s then DEnter else DEnd; tp := tp s |}
                | _ => None end
   | TD_enter => match dp s with
-                | DEnter => Some {| t_started := t_started s; t_break := false; dp := DLoop; tp := tp s |}
+                | DEnter => Some {| t_started := t_started s; t_break := if sticky then t_break s else false;
+                                    dp := DLoop; tp := tp s |}
                 | _ => None end
   | TD_wake => match dp s, t_break s with
                | DLoop, true => Some {| t_started := t_started s; t_break := false; dp := DRead; tp := tp s |}
@@ -507,7 +510,8 @@ Definition tstep (s : tst) (l : tlabel) : option tst :=
                 | _ => None end
   | TT_break => match tp s with
                 | TBreak => Some {| t_started := t_started s;
-                                    t_break := match dp s with DLoop => true | _ => t_break s end;
+                                    t_break := if sticky then true
+                                               else match dp s with DLoop => true | _ => t_break s end;
                                     dp := dp s; tp := TJoin |}
                 | _ => None end
   | TT_join => match tp s, dp s with
@@ -520,15 +524,15 @@ Definition all_tlabels := [TD_read; TD_enter; TD_wake; TT_clear; TT_break; TT_jo
 (* the thread was started by the invoked session's init(); where it is when stop() begins is open *)
 Definition tst_init (d : dpc) : tst := {| t_started := true; t_break := false; dp := d; tp := TClear |}.
 
-Fixpoint trun (s : tst) (ls : list tlabel) : option tst :=
+Fixpoint trun (sticky : bool) (s : tst) (ls : list tlabel) : option tst :=
   match ls with
   | [] => Some s
-  | l :: r => match tstep s l with Some s' => trun s' r | None => None end
+  | l :: r => match tstep sticky s l with Some s' => trun sticky s' r | None => None end
   end.
 
-Definition tstuck (s : tst) : bool :=
+Definition tstuck (sticky : bool) (s : tst) : bool :=
   negb (match tp s with TRet => true | _ => false end) &&
-  forallb (fun l => match tstep s l with None => true | Some _ => false end) all_tlabels.
+  forallb (fun l => match tstep sticky s l with None => true | Some _ => false end) all_tlabels.
 
 (* exhaustive exploration of the (finite) state space *)
 Definition tst_eqb (a b : tst) : bool :=
@@ -536,17 +540,17 @@ Definition tst_eqb (a b : tst) : bool :=
   match dp a, dp b with DRead, DRead | DEnter, DEnter | DLoop, DLoop | DEnd, DEnd => true | _, _ => false end &&
   match tp a, tp b with TClear, TClear | TBreak, TBreak | TJoin, TJoin | TRet, TRet => true | _, _ => false end.
 
-Definition tsucc (s : tst) : list tst :=
-  flat_map (fun l => match tstep s l with Some s' => [s'] | None => [] end) all_tlabels.
+Definition tsucc (sticky : bool) (s : tst) : list tst :=
+  flat_map (fun l => match tstep sticky s l with Some s' => [s'] | None => [] end) all_tlabels.
 
-Fixpoint texplore (fuel : nat) (seen frontier : list tst) : list tst :=
+Fixpoint texplore (sticky : bool) (fuel : nat) (seen frontier : list tst) : list tst :=
   match fuel with
   | O => seen
   | S f =>
-      let new := filter (fun s => negb (existsb (tst_eqb s) seen)) (flat_map tsucc frontier) in
+      let new := filter (fun s => negb (existsb (tst_eqb s) seen)) (flat_map (tsucc sticky) frontier) in
       match new with
       | [] => seen
-      | _ => texplore f (seen ++ new) new
+      | _ => texplore sticky f (seen ++ new) new
       end
   end.
 
